@@ -226,3 +226,36 @@ pub fn run(args: &[&str]) -> String {
     let h = h.finish();
     format!("{} lk={}", hierarchy_obs(&h, false), queries_obs(&h, &queries))
 }
+
+/// `vhdr <flatten 0|1> <filehex>`: viewers::read_header on a Cursor; prints hierarchy (with attributes),
+/// date, version, timescale and header length.
+pub fn run_vhdr(args: &[&str]) -> String {
+    let mut opts = LoadOptions::default();
+    opts.remove_scopes_with_empty_name = args[0] == "1";
+    let bytes = bytes_of_hex(args[1]);
+    let total = bytes.len() as u64;
+    match viewers::read_header(std::io::Cursor::new(bytes), &opts) {
+        Err(_) => "ERR".to_string(),
+        Ok(header) => {
+            let h = &header.hierarchy;
+            let unit = match h.timescale().map(|t| t.unit) {
+                None => 9,
+                Some(TimescaleUnit::FemtoSeconds) => 0,
+                Some(TimescaleUnit::PicoSeconds) => 1,
+                Some(TimescaleUnit::NanoSeconds) => 2,
+                Some(TimescaleUnit::MicroSeconds) => 3,
+                Some(TimescaleUnit::MilliSeconds) => 4,
+                Some(TimescaleUnit::Seconds) => 5,
+                Some(TimescaleUnit::Unknown) => 6,
+            };
+            format!(
+                "{} date={} version={} ts={} hl={}",
+                hierarchy_obs(h, true),
+                hex_of_bytes(h.date().as_bytes()),
+                hex_of_bytes(h.version().as_bytes()),
+                h.timescale().map(|t| format!("{}:{}", t.factor, unit)).unwrap_or("~".to_string()),
+                total - header.body_len
+            )
+        }
+    }
+}
